@@ -387,3 +387,42 @@ Proof.
   - left. auto.
   - right. exists pre, e, post. repeat split; auto.
 Qed.
+
+(* ---------- soundness of the boolean comparison used by the correspondence files ---------- *)
+
+Lemma list_eqb_sound {A} (eqb : A -> A -> bool) (H : forall x y, eqb x y = true -> x = y) :
+  forall l1 l2, list_eqb eqb l1 l2 = true -> l1 = l2.
+Proof.
+  induction l1 as [|x l1 IH]; intros [|y l2] E; cbn [list_eqb] in E; try discriminate; [reflexivity|].
+  apply andb_true_iff in E. destruct E as [E1 E2]. rewrite (H x y E1), (IH l2 E2). reflexivity.
+Qed.
+
+Lemma loss_eqb_sound a b : loss_eqb a b = true -> a = b.
+Proof.
+  destruct a, b; cbn [loss_eqb]; intros E; try discriminate; try reflexivity.
+  apply Z.eqb_eq in E. rewrite E. reflexivity.
+Qed.
+
+Lemma nat_eqb_sound x y : Nat.eqb x y = true -> x = y.
+Proof. apply Nat.eqb_eq. Qed.
+
+Lemma obs_eqb_sound (a b : obs) : obs_eqb a b = true -> a = b.
+Proof.
+  destruct a as [[[[[b1 s1] l1] e1] p1]|], b as [[[[[b2 s2] l2] e2] p2]|]; cbn [obs_eqb]; intros E; try discriminate; [|reflexivity].
+  repeat (apply andb_true_iff in E; destruct E as [E ?]).
+  rewrite (list_eqb_sound Nat.eqb nat_eqb_sound b1 b2 E).
+  rewrite (list_eqb_sound Nat.eqb nat_eqb_sound s1 s2) by assumption.
+  rewrite (list_eqb_sound loss_eqb loss_eqb_sound l1 l2) by assumption.
+  rewrite (list_eqb_sound Nat.eqb nat_eqb_sound e1 e2) by assumption.
+  rewrite (list_eqb_sound (list_eqb Nat.eqb) (list_eqb_sound Nat.eqb nat_eqb_sound) p1 p2) by assumption.
+  reflexivity.
+Qed.
+
+(* the boolean form used by the long correspondence shards implies the literal equality of observations *)
+Lemma failing_from_nil_all_agree cs : forall i, failing_from i cs = [] ->
+  map (fun x => observe (fst (fst x)) (snd (fst x))) cs = map snd cs.
+Proof.
+  induction cs as [|[[c l] o] cs IH]; intros i E; [reflexivity|].
+  cbn [failing_from] in E. destruct (obs_eqb (observe c l) o) eqn:Eo; [|discriminate].
+  cbn [map fst snd]. rewrite (obs_eqb_sound _ _ Eo), (IH (S i) E). reflexivity.
+Qed.
